@@ -276,7 +276,8 @@ func isProto(err error) bool { _, ok := err.(ws.ProtocolError); return ok }
 
 // receive runs a frame sequence with the given RSV assignment through a Reader
 // with MessageState attached and checks every clause.
-func receive(c *mon.C, sh []gen.Shape, rsvs []byte, side ref.Side, plan xport.Plan) bool {
+// consume: 0 the message is read to its end, 1 thrown away with Discard at once, 2 after one byte.
+func receive(c *mon.C, sh []gen.Shape, rsvs []byte, side ref.Side, plan xport.Plan, consume int) bool {
 	c.Count(1)
 	withRsv := make([]gen.Shape, len(sh))
 	copy(withRsv, sh)
@@ -293,7 +294,7 @@ func receive(c *mon.C, sh []gen.Shape, rsvs []byte, side ref.Side, plan xport.Pl
 		_, err := io.Copy(io.Discard, r)
 		return err
 	}
-	det := map[string]interface{}{"frames": gen.ShapesKey(withRsv), "side": side, "plan": plan.String()}
+	det := map[string]interface{}{"frames": gen.ShapesKey(withRsv), "side": side, "plan": plan.String(), "consume": []string{"read", "discard", "read1+discard"}[consume]}
 	// reference walk
 	fi := 0 // index of the next frame the main loop will see
 	for {
@@ -340,7 +341,23 @@ func receive(c *mon.C, sh []gen.Shape, rsvs []byte, side ref.Side, plan xport.Pl
 		var payload []byte
 		buf := make([]byte, 3)
 		var rerr error
-		for {
+		discarded := false
+		if consume > 0 {
+			// the application does not want this message: the frames it skips are still the peer's frames, and an
+			// illegal compression bit on one of them is still a protocol error
+			if consume == 2 {
+				var n int
+				n, rerr = rd.Read(buf[:1])
+				payload = append(payload, buf[:n]...)
+			}
+			if rerr == nil {
+				discarded = true
+				if rerr = rd.Discard(); rerr == nil {
+					rerr = io.EOF
+				}
+			}
+		}
+		for rerr == nil {
 			n, e := rd.Read(buf)
 			payload = append(payload, buf[:n]...)
 			if e != nil {
@@ -382,7 +399,7 @@ func receive(c *mon.C, sh []gen.Shape, rsvs []byte, side ref.Side, plan xport.Pl
 			c.Classf("reject-inside|%s|%s", gen.ShapeClass(sh), kindOf(frames[bad].H.Op))
 			return true
 		}
-		if rerr != io.EOF || !bytes.Equal(payload, wantPayload) {
+		if rerr != io.EOF || (!discarded && !bytes.Equal(payload, wantPayload)) {
 			c.Fail("recv/message", fmt.Sprintf("message not delivered intact (err=%v, %d vs %d bytes)", rerr, len(payload), len(wantPayload)), det)
 			return false
 		}
@@ -433,7 +450,7 @@ func subReceive() mon.Sub {
 					rsvs[i] = byte(y % 8)
 					y /= 8
 				}
-				if !receive(c, sh, rsvs, side, plans[(x+c.I)%len(plans)]) {
+				if !receive(c, sh, rsvs, side, plans[(x+c.I)%len(plans)], (x+c.I)%3) {
 					return
 				}
 			}
@@ -467,7 +484,7 @@ func subReceiveRandom() mon.Sub {
 				}
 			}
 			plans := xport.Plans(c.Rng.Int63(), nil)
-			receive(c, sh, rsvs, []ref.Side{ref.SideServer, ref.SideClient}[c.Rng.Intn(2)], plans[c.Rng.Intn(len(plans))])
+			receive(c, sh, rsvs, []ref.Side{ref.SideServer, ref.SideClient}[c.Rng.Intn(2)], plans[c.Rng.Intn(len(plans))], c.Rng.Intn(3))
 		},
 	}
 }
